@@ -401,6 +401,11 @@ class RandomSource:
         # a per-trace style so that some traces are "continuously engaged" and others erratic
         self.style = rng.choice(["steady", "steady", "erratic", "sparse"])
         self.period = rng.choice([1, 1, 2, 3, 5])
+        # machines that work on their own: the default state's function starts a must_finish (timed) state - a chain of
+        # them - and nobody calls engage(); the loop just keeps iterating
+        self.mfs = [s for s in self.nondef if s in shape["mf"]]
+        if shape["default"] != "none" and self.mfs and not shape["auto"] and rng.random() < 0.5:
+            self.style = "idle"
 
     def top_events(self):
         rng = self.rng
@@ -446,6 +451,12 @@ class RandomSource:
                 for ev in rng.choice(motifs):
                     yield dict(ev)
                 continue
+            if self.style == "idle":
+                if r < 0.85:
+                    yield {"e": "execute"}
+                    yield {"e": "tick", "d": self.period}
+                    continue
+                r = rng.random()
             if self.style == "steady":
                 # engage + execute + fixed period, with occasional disturbances
                 if r < 0.80:
@@ -475,6 +486,8 @@ class RandomSource:
             # the default state's function may hand over to another state (the specification follows it: a regular
             # state selected that way is dropped again unless engage() is called; MC does not explore it)
             self.dnth = getattr(self, "dnth", 0) + 1
+            if self.style == "idle" and rng.random() < 0.3:
+                return {"e": "ns", "s": rng.choice(self.mfs)}
             if rng.random() < 0.12 and self.nondef:
                 return {"e": "ns", "s": rng.choice(self.nondef)}
             return None
